@@ -704,6 +704,9 @@ func (s *Sched) Tracing() bool { return s.cfg.Trace }
 // Probe bumps a reach counter.
 func (s *Sched) Probe(name string) { s.probes[name]++ }
 
+// Faults returns the faults fired so far in this run.
+func (s *Sched) Faults() map[string]int { return s.faults }
+
 // Fault records that a fault of the given kind actually fired.
 func (s *Sched) Fault(kind string) { s.faults[kind]++; s.note("fault:"+kind, 0) }
 
@@ -913,8 +916,15 @@ type Once struct {
 
 func (o *Once) Do(f func()) {
 	s := cur.Load()
-	if s == nil {
-		o.real.Do(f)
+	if s == nil || s.stopping {
+		// pass-through; o.done keeps both modes consistent for objects that
+		// outlive a simulated run (process-wide registries)
+		o.real.Do(func() {
+			if !o.done {
+				defer func() { o.done = true }()
+				f()
+			}
+		})
 		return
 	}
 	if o.done {
@@ -923,7 +933,10 @@ func (o *Once) Do(f func()) {
 	o.m.Lock()
 	defer o.m.Unlock()
 	if !o.done {
-		defer func() { o.done = true }()
+		defer func() {
+			o.done = true
+			o.real.Do(func() {})
+		}()
 		f()
 	}
 }
